@@ -352,7 +352,7 @@ func intersectC10(c *Ctx) {
 		for _, in := range b.Instrs {
 			if st, ok := in.(*ssa.Store); ok {
 				if fa, ok := st.Addr.(*ssa.FieldAddr); ok {
-					if _, vf, ok := fieldRef(st.Val); ok && (vf == "Min" || vf == "Max") {
+					if vb, vf, ok := fieldRef(st.Val); ok && (vf == "Min" || vf == "Max") && vb == other {
 						_ = fa
 						candidates++
 					}
@@ -435,7 +435,7 @@ func intersectC10(c *Ctx) {
 							if sty.Field(fa.Field).Name() != field {
 								continue
 							}
-							if _, vf, ok := fieldRef(st.Val); !ok || vf != field {
+							if vb, vf, ok := fieldRef(st.Val); !ok || vf != field || vb != other {
 								continue
 							}
 							if r.execB[b.Index] {
